@@ -63,7 +63,8 @@ func TestInterceptorReports(t *testing.T) {
 		nss := rapid.IntRange(1, 3).Draw(t, "streams")
 		srcs := make([]*kit.ByteSource, nss)
 		readers := make([]interceptor.RTPReader, nss)
-		seqs := make([]uint16, nss)
+		seqs := make([]uint16, nss+1) // one more SSRC that has no binding of its own: its packets arrive through another stream's reader
+		seqs[nss] = kit.U16Boundary().Draw(t, "startSeqUnbound")
 		for i := range srcs {
 			srcs[i] = &kit.ByteSource{}
 			readers[i] = ic.BindRemoteStream(&interceptor.StreamInfo{SSRC: uint32(1000 + i)}, srcs[i]) //nolint:gosec
@@ -79,7 +80,12 @@ func TestInterceptorReports(t *testing.T) {
 		var feds []fed
 		irregular := false
 		for i := 0; i < n; i++ {
-			k := rapid.IntRange(0, nss-1).Draw(t, "stream")
+			// the report is keyed by the SSRC the packet carries, whichever binding it is read through
+			k := rapid.OneOf(rapid.IntRange(0, nss-1), rapid.IntRange(0, nss)).Draw(t, "stream")
+			via := k
+			if k == nss || rapid.IntRange(0, 7).Draw(t, "viaOther") == 0 {
+				via = rapid.IntRange(0, nss-1).Draw(t, "via")
+			}
 			d := dseq.Draw(t, "dseq")
 			if d != 1 {
 				irregular = true
@@ -88,14 +94,14 @@ func TestInterceptorReports(t *testing.T) {
 			pause := rapid.IntRange(0, 9).Draw(t, "pause") == 0
 			h.U(uint64(k), uint64(seqs[k]))
 			raw, _ := (&rtp.Packet{Header: rtp.Header{Version: 2, SSRC: uint32(1000 + k), SequenceNumber: seqs[k]}, Payload: []byte{1}}).Marshal() //nolint:gosec
-			srcs[k].Push(raw)
+			srcs[via].Push(raw)
 			buf := kit.DirtyBuffer(1500)
 			var rerr error
 			o := kit.Guard(0, func() {
 				clk.mu.Lock()
 				clk.harness = kit.GoID() // the guarded call runs on a helper goroutine
 				clk.mu.Unlock()
-				_, _, rerr = readers[k].Read(buf, interceptor.Attributes{})
+				_, _, rerr = readers[via].Read(buf, interceptor.Attributes{})
 			})
 			if !o.OK() {
 				_ = ic.Close()
